@@ -370,7 +370,32 @@ func ruleR12() *Rule {
 					continue
 				}
 				from := len(c.obs)
-				fn := c.method(sp.Type, sp.Method)
+				fn := c.p.Method(sp.Type, sp.Method)
+				var discovered *ssa.Parameter
+				if fn == nil {
+					// the reset has moved (onto the reused type itself, say): the routine that replaces the
+					// whole struct its parameter or receiver points to is the one to judge
+					for _, g := range c.p.ZapFuncs {
+						if g.Parent() != nil || len(g.Blocks) == 0 || fn != nil {
+							continue
+						}
+						for _, q := range g.Params {
+							if _, isPtr := q.Type().Underlying().(*types.Pointer); !isPtr || !isNamed(q.Type(), zapPkgPath, sp.Struct) {
+								continue
+							}
+							eachInstr(g, func(_ *ssa.BasicBlock, in ssa.Instruction) {
+								if st, ok := in.(*ssa.Store); ok && st.Addr == ssa.Value(q) {
+									if _, ok := wholeStructStore(st); ok {
+										fn, discovered = g, q
+									}
+								}
+							})
+						}
+					}
+				}
+				if fn == nil {
+					fn = c.method(sp.Type, sp.Method)
+				}
 				// every obligation of this row serves the row's properties
 				defer func(from int, props []string) {
 					for j := from; j < len(c.obs); j++ {
@@ -390,6 +415,9 @@ func ruleR12() *Rule {
 							prm = p
 						}
 					}
+				}
+				if discovered != nil {
+					prm, name = discovered, funcShortName(fn)
 				}
 				if prm == nil {
 					c.undecided(name+"/reuse-param", c.fpos(fn), "the reusable *"+sp.Struct+" parameter is found", "no such parameter")
@@ -470,7 +498,17 @@ func ruleR12() *Rule {
 				}
 				if zero != nil {
 					// the zero store must be on every path that returns the parameter
-					c.check(returnsFreshOrReset(fn), name+"/zeroed-on-reuse", c.pos(zero), "in "+name+" every returned object is fresh or was zeroed as a whole (`*rv = "+sp.Struct+"{}`) on the way",
+					resetOK := returnsFreshOrReset(fn)
+					if discovered != nil && fn.Signature.Results().Len() == 0 {
+						// a reset routine that hands nothing back: the reset is on every way through it
+						resetOK = true
+						for _, ret := range returnsOf(fn) {
+							if !(zero.Block() == ret.Block() || zero.Block().Dominates(ret.Block())) {
+								resetOK = false
+							}
+						}
+					}
+					c.check(resetOK, name+"/zeroed-on-reuse", c.pos(zero), "in "+name+" every returned object is fresh or was zeroed as a whole (`*rv = "+sp.Struct+"{}`) on the way",
 						"a path returns the caller-supplied object without the whole-struct reset")
 					carried := map[string]*ssa.UnOp{}
 					for _, fs := range fstores {
